@@ -10,6 +10,12 @@ import jsgen
 import lib
 
 CORPUS = [
+    # operator spacing: a printer that glues a sign to its operand turns `- -a` into a decrement
+    "var a = 5, b = 5; print(- -a, + +a, -(-a), - - -a, ! !a, ~ ~a, typeof typeof a, void void 0, - +a, + -a, a - -a, a + +a, a - - -a); print(- --b, b, + ++b, b, - b--, b, + b++, b, a+++b, a---b, a + ++b, a - --b);",
+    "var x = 1, y = 2; print(x++ + ++y, x-- - --y, x+ +y, x- -y, -x ** 2 === undefined, (-x) ** 2, (+y) ** -x, typeof -x, typeof +y, !-x, -!x, ~-x, -~x, 1 - -1, 1 + +1, 1 - - - 1);",
+    # clause order matters: default in the middle, with fall-through
+    "function f(v){ var s = ''; switch (v) { case 1: s += 'one+'; default: s += 'default+'; case 2: s += 'two'; break; case 3: s += 'three'; } return s; } print(f(1), f(2), f(3), f(9));",
+    "function g(v){ switch (v) { default: return 'd'; case 1: return 1; case 2: } return 'end'; } print(g(1), g(2), g(3)); switch (0) { default: print('only default'); } switch (1) { case 1: default: case 2: print('all'); }",
     "var s = \"a\\\"b\\n\" + 'q\\'x' + `t${1+2}u\\n`; print(s, -(-1), +(+1), 2 - -1, 2 + +1, 1 - (2 - 3), (1, 2));",
     "label: for (let i = 0; i < 3; i++) { if (i) continue label; else break; } var x = 0; do x++; while (x < 5) print(x);",
     "var k = 'kk', r = {z: 1}; var o = {get a() { return 1 }, set a(v) {}, [k]: 1, 'q': 2, 3: 4, ...r, m() { return 2 }, async *g() {}, 'a-b': 5, '': 6, 1.5: 7}; print(Object.keys(o).join());",
@@ -28,7 +34,7 @@ CORPUS = [
     "print(1 + 2 * 3, (1 + 2) * 3, 1 - 2 - 3, 1 - (2 - 3), 2 ** -1, (a => a)`x`, new Date(0).getTime(), new (class { constructor(a) { this.a = a } })(1).a, new Array(3).length, new Object);",
 ]
 
-MUT = ["(", ")", "{", "}", "[", "]", ";", ",", "=>", "...", "`", "'", "\"", "\\", "/", "/*", "//", "\n", "\u2028", "0x", "1e", "#", "@", "?.", "??=", "**", "async ", "await ", "yield ", "let ", "class ", "\\u{110000}", "\\u00", "\xff", "\ud800", "\0", "<!--", "-->"]
+MUT = ["(", ")", "{", "}", "[", "]", ";", ",", "=>", "...", "`", "'", "\"", "\\", "/", "/*", "//", "\n", "\u2028", "0x", "1e", "#", "@", "?.", "??=", "**", "async ", "await ", "yield ", "let ", "class ", "\\u{110000}", "\\u00", "\\uD800", "\\u{DC00}", "a\\uDFFF", "#x\\uD800", "\\u{D800}x", "\\u0061b", "var \\uD800 = 1;", ".\\uDC00", "\xff", "\ud800", "\0", "<!--", "-->"]
 
 
 def u16(text):
